@@ -399,8 +399,8 @@ Qed.
 Lemma step_cases s o s' evs r : step s o = (s', (evs, r)) →
   (∃ c, o = Expire c ∧ expired s c s' ∧ evs = [] ∧ r = ROk []) ∨ step_kind s o s' evs r.
 Proof.
-  destruct o as [cid deps rsig|pool cid keys target chal rsig|es|es|a tok sector cost|a tok sector cost|a tok sector cost|c];
-    simpl; intros H; [right|right|right|right|right|right|right|left].
+  destruct o as [cid deps rsig|pool cid keys target chal rsig|es|es|a tok sector cost|a tok sector cost|a tok sector cost|c|o'];
+    simpl; intros H; [right|right|right|right|right|right|right|left|right].
   - (* fund *)
     unfold fund, fail in H.
     destruct (decide (deps = [])); [inversion H; subst; by apply SK_fail|].
@@ -451,6 +451,7 @@ Proof.
     inversion H; subst. by eapply SK_write.
   - eapply read_like_cases; eauto.
   - exists c. split; [done|]. by apply expire_expired.
+  - unfold fail in H. inversion H; subst. by apply SK_fail.
 Qed.
 
 (** ** Attachments stay duplicate free *)
@@ -1085,6 +1086,27 @@ Proof.
     destruct (decide (bal (accounts s) a = 0)); destruct (drain _ _ _); inversion Hd; subst; by simpl.
 Qed.
 
+(** *** C15_debit_atomic: DebitAccount is one atomic step — success removes exactly the
+    price (and needs drawable funds that cover it), failure removes nothing *)
+Theorem debit_atomic s a cost :
+  inv s → 0 ≤ cost →
+  match debit s a cost with
+  | Some s' => cost ≤ drawable s a ∧ total s' = total s - cost ∧
+               (∀ k, 0 ≤ bal (accounts s') k) ∧ (∀ k, 0 ≤ bal (pools s') k) ∧
+               attached s' = attached s ∧ contracts s' = contracts s ∧ sectors s' = sectors s
+  | None => drawable s a < cost
+  end.
+Proof.
+  intros Hi Hc. destruct (debit s a cost) as [s'|] eqn:E.
+  - destruct (debit_Some _ _ _ _ Hi Hc E) as (H1 & H2 & H3 & H4 & H5 & H6 & H7 & _). by repeat split.
+  - by apply (debit_None s a cost Hi).
+Qed.
+
+(** *** C15_cut_stream_changes_nothing: an RPC whose request (header or sector data) never
+    arrives completely is refused before anything is debited or stored *)
+Theorem cut_stream_changes_nothing s o : step s (Cut o) = (s, ([], RErr)).
+Proof. done. Qed.
+
 (** ** Non-vacuity: a concrete reachable state that meets the hypotheses of every implication *)
 Definition ex_cs : gmap N contract := {[ 0%N := Contract 100 5 1000 2000 true ]}.
 Definition ex_tok (a : N) : token := Token 1 false (Sig a (MToken a 1)).
@@ -1335,3 +1357,12 @@ Example ex_expired_contract :
   (step s1 (Replenish true 0 [3%N] 9 (Sig 100 (MChallenge 0 [3%N] 9 7)) (Sig 100 (MRevision 0 8 968 2032)))).2 = ([], RErr) ∧
   (step ex_s (Fund 0 [(1%N, 5)] (Sig 100 (MRevision 0 8 967 2033)))).2.2 = ROk [5].
 Proof. vm_compute. repeat split. eexists. repeat split. Qed.
+
+(** an abandoned write of a funded account: nothing happens; the complete one is charged *)
+Example ex_cut_write :
+  12 ≤ drawable ex_s 1 ∧
+  (step ex_s (Cut (WriteSec 1 (ex_tok 1) 8 12))).2 = ([], RErr) ∧
+  (step ex_s (WriteSec 1 (ex_tok 1) 8 12)).2 = ([EvDebit 1 12; EvStore 8], ROk []) ∧
+  (∃ s', debit ex_s 1 12 = Some s') ∧ debit ex_s 1 13 = None.
+Proof. split; [vm_compute; discriminate|]. split; [by vm_compute|]. split; [by vm_compute|].
+  split; [|by vm_compute]. destruct (debit ex_s 1 12) eqn:E; [by eexists|]. vm_compute in E. discriminate. Qed.
